@@ -219,7 +219,9 @@ def suggest_pattern(description):
     desc = re.sub(r'\s+\d{4,}.*$', '', desc)  # Remove trailing numbers (store IDs)
     desc = re.sub(r'\s+[A-Z]{2}$', '', desc)  # Remove trailing state codes
     desc = re.sub(r'\s+\d{5}$', '', desc)  # Remove zip codes
-    desc = re.sub(r'\s+#\d+', '', desc)  # Remove store numbers like #1234
+    # Remove store numbers like #1234 (leave a blank: the text on both sides must not
+    # fuse into a word the description does not contain, "SHOP #12A" -> "SHOP A")
+    desc = re.sub(r'\s+#\d+', ' ', desc)
 
     # Remove common prefixes
     prefixes = ['APLPAY ', 'SQ *', 'TST*', 'SP ', 'PP*', 'GOOGLE *']
